@@ -43,6 +43,35 @@ def guard_entry_points(modules):
 _IN_CHILD = False
 
 
+def isolate_rules(modules):
+    """a rule that cannot be decided (AnalysisBroken) must not keep the other rules of the property from running: every rule function (rN_*, run_rule, run_*_rule)
+    and every link of the run chains (run, _run_*) records the failure in Result.broken and returns"""
+    import functools, inspect, re as _re
+    pat = _re.compile(r'^(r\d+\w*|run|_run\w*|run_\w*rule)$')
+    for mod in modules:
+        for name, fn in list(vars(mod).items()):
+            if not pat.match(name) or not inspect.isfunction(fn) or getattr(fn, '_isolated', False):
+                continue
+            def make(f):
+                @functools.wraps(f)
+                def w(*a, **k):
+                    try:
+                        return f(*a, **k)
+                    except AnalysisBroken as e:
+                        res = a[0] if a and isinstance(a[0], Result) else None
+                        if res is None:
+                            raise
+                        if str(e) not in res.broken:
+                            res.broken.append(str(e))
+                        return None
+                w._isolated = True
+                for attr in ('_guarded', '_forked'):
+                    if getattr(f, attr, False):
+                        setattr(w, attr, True)
+                return w
+            setattr(mod, name, make(fn))
+
+
 def parallel_entry_points(modules):
     """run_rule / run_*_rule of the helper modules (the interpretive rules: seconds to minutes each, independent of one another) run in forked children;
     Result.join() collects their rules.  XV_JOBS=1 keeps everything in one process."""
@@ -208,8 +237,9 @@ class Result:
                 errors.append(out[1])
             else:
                 errors.append('internal error in %s: %s' % (label, out[1][-1500:]))
-        if errors:
-            raise AnalysisBroken('; '.join(errors))
+        for e in errors:
+            if e not in self.broken:
+                self.broken.append(e)
 
     def rule(self, rid, clause, floor=1):
         focus = os.environ.get('XV_FOCUS_RULE')
